@@ -423,9 +423,12 @@ func genStaticCase(rng *rand.Rand) *staticCase {
 		CustomFS:   rng.Intn(4) == 0,
 		Method:     "GET",
 		DefaultDir: rng.Intn(5) == 0,
-		ReqHdr:     []string{"", "", "", "Accept-Encoding: gzip", "Accept-Encoding: gzip, deflate, br", "Accept-Encoding: br", "Accept-Encoding: *", "Accept: text/html", "Accept: application/json", "Accept-Language: de", "TE: gzip", "Accept-Encoding: identity;q=0, gzip"}[rng.Intn(12)],
-		DirName:    append([]string{"", "", "", ""}, c16DirNames...)[rng.Intn(4+len(c16DirNames))],
-		Spread:     rng.Intn(6) == 0,
+		ReqHdr: []string{"", "", "", "Accept-Encoding: gzip", "Accept-Encoding: gzip, deflate, br", "Accept-Encoding: br", "Accept-Encoding: *", "Accept: text/html", "Accept: application/json", "Accept-Language: de", "TE: gzip", "Accept-Encoding: identity;q=0, gzip",
+			// what a proxy in front (or a client pretending to be one) says about where the application lives: a directory is
+			// redirected to its own slash-terminated form
+			"X-Forwarded-Prefix: /app", "X-Forwarded-Prefix: //evil.example", "X-Forwarded-Host: evil.example", "X-Forwarded-Proto: https", "X-Original-URL: /secret.txt", "X-Rewrite-URL: /pubx/leak", "X-Script-Name: /app", "Forwarded: host=evil.example;proto=https", "X-Forwarded-Path: /app", "Referer: http://evil.example/"}[rng.Intn(22)],
+		DirName: append([]string{"", "", "", ""}, c16DirNames...)[rng.Intn(4+len(c16DirNames))],
+		Spread:  rng.Intn(6) == 0,
 	}
 	if rng.Intn(3) == 0 {
 		c.Method = []string{"HEAD", "POST", "PUT", "OPTIONS", "get", "DELETE", "", "PATCH"}[rng.Intn(8)]
